@@ -26,11 +26,11 @@ let z_of_decimal (s : string) : M.z =
         let k = min 18 (String.length s - !i) in
         let chunk = int_of_string (String.sub s !i k) in
         let rec pow10 k = if k = 0 then 1 else 10 * pow10 (k - 1) in
-        acc := M.Z.add (M.Z.mul !acc (z_of_int (pow10 k))) (z_of_int chunk);
+        acc := M.drv_z_add (M.drv_z_mul !acc (z_of_int (pow10 k))) (z_of_int chunk);
         i := !i + k
       done; !acc
     end in
-  if neg then M.Z.opp v else v
+  if neg then M.drv_z_opp v else v
 
 let hexv c = match c with
   | '0'..'9' -> Char.code c - 48 | 'a'..'f' -> Char.code c - 87 | 'A'..'F' -> Char.code c - 55
@@ -75,7 +75,7 @@ let parse_line (s : string) : M.sx =
 let () =
   (* self-check of the byte representation trick *)
   for i = 0 to 255 do
-    if int_of_n (M.to_N (byte_of_int i)) <> i then (prerr_endline "byte representation self-check failed"; exit 3)
+    if int_of_n (M.drv_byte_to_N (byte_of_int i)) <> i then (prerr_endline "byte representation self-check failed"; exit 3)
   done;
   if Array.length Sys.argv < 3 then (prerr_endline "usage: runmodel <propnum> <cases.sx> [start] [stride]"; exit 2);
   let prop = n_of_int (int_of_string Sys.argv.(1)) in
@@ -88,7 +88,7 @@ let () =
        let line = input_line ic in
        if !idx mod stride = start then begin
          let code =
-           try int_of_n (M.run prop (parse_line line))
+           try int_of_n (M.drv_run prop (parse_line line))
            with Failure m -> (Printf.printf "PARSEFAIL %d %s\n" !idx m; 4)
               | Stack_overflow -> (Printf.printf "STACKOVERFLOW %d\n" !idx; 8) in
          if code <> 0 then Printf.printf "FAIL %d %d\n" !idx code;
